@@ -4,7 +4,10 @@
 
 package http2
 
-import "sync"
+import (
+	"fmt"
+	"sync"
+)
 
 // VerifResetPools drops process-global pools whose contents (channels) must not
 // cross synctest bubbles.
@@ -23,3 +26,103 @@ func verifYield(site string, sc *serverConn) {
 		f(site, sc.conn.RemoteAddr().String())
 	}
 }
+
+// ---- read-only views for the write-scheduler monitor (C20) and the flow-control ledger (C12)
+
+type VerifWR struct {
+	StreamID    uint32
+	IsControl   bool // no stream attached
+	IsData      bool
+	Data        []byte // DATA payload (aliases the request's buffer; copy before keeping)
+	EndStream   bool
+	HasStream   bool
+	StreamAvail int32 // min(stream window, connection window) right now
+	MaxFrame    int32 // peer's SETTINGS_MAX_FRAME_SIZE
+	Kind        string
+}
+
+func VerifInspect(wr FrameWriteRequest) VerifWR {
+	v := VerifWR{StreamID: wr.StreamID(), IsControl: wr.isControl(), Kind: fmt.Sprintf("%T", wr.write)}
+	if wd, ok := wr.write.(*writeData); ok {
+		v.IsData = true
+		v.Data = wd.p
+		v.EndStream = wd.endStream
+	}
+	if wr.stream != nil {
+		v.HasStream = true
+		v.StreamAvail = wr.stream.flow.available()
+		v.MaxFrame = wr.stream.sc.maxFrameSize
+	}
+	return v
+}
+
+// VerifPriorityTree checks the structural invariants of the priority scheduler's
+// dependency tree: rooted at stream 0, acyclic, parent/child/sibling links
+// consistent, every node in the map reachable from the root.
+func VerifPriorityTree(ws WriteScheduler) (isPriority bool, problem string) {
+	p, ok := ws.(*priorityWriteScheduler)
+	if !ok {
+		return false, ""
+	}
+	if p.nodes[0] != &p.root {
+		return true, "nodes[0] is not the root"
+	}
+	if p.root.parent != nil {
+		return true, "root has a parent"
+	}
+	seen := map[*priorityNode]bool{}
+	var walk func(n *priorityNode, depth int) string
+	walk = func(n *priorityNode, depth int) string {
+		if seen[n] {
+			return fmt.Sprintf("node %d reached twice (cycle or shared child)", n.id)
+		}
+		if depth > len(p.nodes)+1 {
+			return "tree deeper than the number of nodes (cycle)"
+		}
+		seen[n] = true
+		var prev *priorityNode
+		steps := 0
+		for k := n.kids; k != nil; k = k.next {
+			if k.parent != n {
+				return fmt.Sprintf("node %d is in the child list of %d but its parent is %v", k.id, n.id, nodeID(k.parent))
+			}
+			if k.prev != prev {
+				return fmt.Sprintf("sibling links of node %d are inconsistent", k.id)
+			}
+			if s := walk(k, depth+1); s != "" {
+				return s
+			}
+			prev = k
+			steps++
+			if steps > len(p.nodes)+1 {
+				return fmt.Sprintf("child list of node %d does not end (cycle)", n.id)
+			}
+		}
+		return ""
+	}
+	if s := walk(&p.root, 0); s != "" {
+		return true, s
+	}
+	for id, n := range p.nodes {
+		if n.id != id {
+			return true, fmt.Sprintf("nodes[%d] has id %d", id, n.id)
+		}
+		if !seen[n] {
+			return true, fmt.Sprintf("node %d is in the map but not reachable from the root", id)
+		}
+	}
+	if len(seen) != len(p.nodes) {
+		return true, fmt.Sprintf("%d nodes reachable from the root, %d in the map", len(seen), len(p.nodes))
+	}
+	return true, ""
+}
+
+func nodeID(n *priorityNode) interface{} {
+	if n == nil {
+		return nil
+	}
+	return n.id
+}
+
+// VerifNewRoundRobinWriteScheduler exposes the default scheduler constructor.
+func VerifNewRoundRobinWriteScheduler() WriteScheduler { return newRoundRobinWriteScheduler() }
